@@ -1500,6 +1500,8 @@ struct TransitionBase {
 	#pragma warning(pop)
 #endif
 
+#pragma pack(pop)
+
 template <typename TPayload>
 struct TransitionT final
 	: TransitionBase
@@ -1569,6 +1571,8 @@ struct TransitionT final
 
 	bool payloadSet = false;
 };
+
+#pragma pack(push, 1)
 
 template <>
 struct TransitionT<void> final
@@ -1705,6 +1709,8 @@ operator == (const TaskBase& lhs,
 		   lhs.destination == rhs.destination;
 }
 
+#pragma pack(pop)
+
 template <typename TPayload>
 struct TaskT final
 	: TaskBase
@@ -1747,6 +1753,8 @@ struct TaskT final
 
 	bool payloadSet = false;
 };
+
+#pragma pack(push, 1)
 
 template <>
 struct TaskT<void> final
